@@ -552,10 +552,67 @@ fn part_b(rng: &mut Rng, n: u64, out: &mut Out) {
     out.stat("setup_failures", &format!("{}", setup_failures));
 }
 
+/// Part C: a real PoW engine.  Chains are mined by nonce search at small difficulties, one block of the serving branch is left
+/// unmined; the honest prover over that branch returns it in the reorg, the sampled or the last-N section.  Every other check
+/// (shape, chain roots, continuity, MMR proof) passes, so the PoW verdict of that one header is the only failing gate.
+fn part_c(rng: &mut Rng, n: u64, out: &mut Out) {
+    let mut consensus = dummy_consensus();
+    consensus.pow = { use crate::tests::prelude::ChainExt; crate::tests::utils::MockChain::new_with_default_pow("verif-pow").consensus().pow.clone() };
+    let engine = consensus.pow_engine();
+    let peer = PeerIndex::new(3);
+    let tau = 2u64;
+    for i in 0..n {
+        let last_n = *rng.pick(&[2u64, 3, 5]);
+        let plan = flat_plan(12, rng.range(4, 9), rng.range(2, 12));
+        let total = plan_blocks(&plan).min(60);
+        let e2 = engine.clone();
+        super::chain::POW.with(|p| *p.borrow_mut() = Some((Box::new(move |h: &packed::Header| e2.verify(h)), u64::MAX)));
+        let main = Rc::new(SynChain::new_with_activation(plan, total, 1, 0));
+        let first = rng.range(last_n + 4, total - 12);
+        let fork_at = first - rng.range(2, last_n.max(2));   // the fork point is remembered
+        // where the unmined block of the serving branch lies: reorg section (0, 1), between, last-N section - or nowhere (control)
+        let section = match rng.below(6) { 0 | 1 | 2 => 0, 3 => 1, 4 => 2, _ => 3 };
+        // (a reorg section is only sent when the request starts at the proven header: more than last-N blocks ahead)
+        let tip = first + if section == 0 { rng.range(last_n + 2, 10) } else { match rng.below(3) { 0 => rng.range(1, last_n), _ => rng.range(last_n + 2, 10) } };
+        let bad = match section { 0 => rng.range(fork_at + 1, first - 1), 1 => rng.range(first, tip - 1), 2 => tip - 1, _ => u64::MAX };
+        let e3 = engine.clone();
+        super::chain::POW.with(|p| *p.borrow_mut() = Some((Box::new(move |h: &packed::Header| e3.verify(h)), bad)));
+        let fork = Rc::new(main.fork(fork_at, tip - fork_at + 2, 55, None));
+        super::chain::POW.with(|p| *p.borrow_mut() = None);
+        // the client proves `first` on the main branch, then the peer announces the other branch
+        let mut c = Client::new(&main, &consensus, last_n, 1);
+        c.connect(peer);
+        let ok = (|| -> Option<packed::GetLastStateProof> {
+            let o = c.recv(peer, &prover::last_state_message(&main, first));
+            let mut r = find_request(&o)?;
+            for _ in 0..2 {
+                let resp = prover::respond(&main, &r)?;
+                let o = c.recv(peer, &packed::LightClientMessage::new_builder().set(resp).build());
+                if o.ban.is_some() || o.panicked { return None; }
+                match find_request(&o) { Some(r2) => r = r2, None => break }
+            }
+            let o = c.recv(peer, &prover::last_state_message(&fork, tip));
+            if o.ban.is_some() { return None; }
+            let o = c.tick(REFRESH_PEERS_TOKEN, peer);
+            find_request(&o)
+        })();
+        let req = match ok { Some(r) => r, None => { out.stat(&format!("pow_setup_failure_{}", i), "no request for the other branch"); continue; } };
+        let plan = match prover::plan_response(&fork, &req) { Some(p) => p, None => continue };
+        let numbers = plan.numbers();
+        let base = Resp { last: fork.packed_vheader(plan.last), headers: numbers.iter().map(|x| fork.packed_vheader(*x)).collect(), proof: fork.proof(plan.last, &numbers).into_iter().collect() };
+        let returned_bad = numbers.contains(&bad);
+        let where_ = if !returned_bad { "all-mined" } else if plan.reorg.contains(&bad) { "unmined-in-reorg-section" } else if plan.sampled.contains(&bad) { "unmined-in-sampled-section" } else { "unmined-in-last-n-section" };
+        let descr = format!("PoW engine {}: main branch of {} blocks, client proven at #{}, the peer switches to a branch forking at #{} (tip #{}), last_n={}; the honest answer over that branch = reorg {:?} sampled {:?} last-N {:?}; unmined block: {}",
+            consensus.pow, total, first, fork_at, tip, last_n, plan.reorg, plan.sampled, plan.last_n, if bad == u64::MAX { "none".to_string() } else { format!("#{}", bad) });
+        handler_case(out, &format!("pow-{}", i), &["handler", "pow-engine", where_], &mut c, peer, &base, !returned_bad, !returned_bad, tau, &descr);
+    }
+}
+
 pub(crate) fn run(seed: u64, n: u64, out: &mut Out) {
     let guard = ckb_systemtime::faketime();
     guard.set_faketime(T0);
     let mut rng = Rng::new(seed);
     part_a(&mut rng, n, out);
     part_b(&mut rng, (n / 4).max(10), out);
+    part_c(&mut rng, (n / 10).max(12), out);
 }
